@@ -2,7 +2,9 @@
    (proved part). The macro's parser, modelled over Rust token trees, reads the
    documented spelling of every value of the documented class (integers and
    floats with an optional minus sign, strings, characters, #t #f #nil,
-   identifier symbols and #"..." symbols, #:name and #:"..." keywords, proper
+   identifier symbols, bare punctuation-only symbols such as + ... <= -> (one
+   punctuation token per character) and #"..." symbols, #:name and #:"..."
+   keywords, proper
    and dotted lists, vectors, nested arbitrarily, of any size) to code whose
    evaluation is that value; with C01, that is also the value the default text
    parser reads from the printed text. An unquoted expression contributes
@@ -60,3 +62,20 @@ Example C09_nonvacuous :
            | MErr _ => False
            end.
 Proof. split; [cbn; repeat split; reflexivity|vm_compute; reflexivity]. Qed.
+
+(* bare punctuation symbols: (<= (+ a ...) -> . /) is spelled with one Punct
+   token per character, joint inside a symbol; the lone - : . keep the #"..."
+   spelling (a sign, a keyword marker, the dot of a dotted list) *)
+Example C09_punctuation_symbols :
+  let is_ident := fun s => beq_bytes s (s2b "a") in
+  let v := Cons (Symbol (s2b "<=")) (Cons (vlist [Symbol (s2b "+"); Symbol (s2b "a"); Symbol (s2b "...")])
+             (Cons (Symbol (s2b "->")) (Symbol (s2b "/")))) in
+  cok v /\
+  spell is_ident (Symbol (s2b "<=")) = [Punct 60 Joint; Punct 61 Alone] /\
+  spell is_ident (Symbol (s2b "...")) = [Punct 46 Joint; Punct 46 Joint; Punct 46 Alone] /\
+  spell is_ident (Symbol (s2b "-")) = [Punct 35 Alone; Lit (LStr (s2b "-") (s2b "-"))] /\
+  match macro_parse (spell is_ident v) with
+  | MOk m => meval (fun _ => Nil) m = v
+  | MErr _ => False
+  end.
+Proof. cbv zeta. split; [cbn; repeat split; reflexivity|]. repeat split; vm_compute; reflexivity. Qed.
